@@ -135,6 +135,15 @@ def run(ctx):
                 msg = check_to(gd, dist, Deff, q, r, tuple(gd["central"]))
                 if msg:
                     ctx.violation("property_fails", msg, case, True)
+                if msg is None and isinstance(r, list):
+                    # the way a user replays it: from the graph's own central state, with the library's apply_path - twice, and the central state must survive
+                    for rep_ in range(2):
+                        end_ = G.flat_states(graph.apply_path(graph.central_state, r))
+                        if end_ != [list(q)]:
+                            ctx.violation("property_fails", f"apply_path(graph.central_state, path) ends at {end_} instead of the query state (replay {rep_ + 1})", case, True)
+                            break
+                    if G.flat_states(graph.central_state.reshape(1, -1)) != [list(gd["central"])]:
+                        ctx.violation("property_fails", "replaying a path from graph.central_state changed the graph's central state", case, True)
                 if ic or rng.random() < 0.2:
                     r, lit = P.res_path_lit(lambda: graph.find_path_from(list(q), ball))
                     qlits.append(f"(QFrom {czl(q)}, {lit})")
@@ -144,6 +153,16 @@ def run(ctx):
                         msg = check_from(gd, dist, Deff, q, r, tuple(gd["central"]))
                         if msg:
                             ctx.violation("property_fails", msg, case, True)
+                        if msg is None and isinstance(r, list):
+                            # the library's own replay (validate_path) must accept what find_path_from returned - from lists, tensors, and twice in a row
+                            for rep_ in range(2):
+                                try:
+                                    graph.validate_path(list(q) if rep_ == 0 else __import__("torch").tensor(q, dtype=__import__("torch").int64), r)
+                                except AssertionError:
+                                    ctx.violation("property_fails", "validate_path rejects the valid path returned by find_path_from", case, True)
+                                    break
+                            if G.flat_states(graph.central_state.reshape(1, -1)) != [list(gd["central"])]:
+                                ctx.violation("property_fails", "replaying a path changed the graph's central state", case, True)
                     elif not (isinstance(r, tuple) and r[1] == "AssertionErr"):
                         ctx.violation("property_fails", "find_path_from on a non-inverse-closed graph did not refuse", case, True)
                 # revert_path: valid path A->B reverted is a valid path B->A of the same length
